@@ -75,6 +75,7 @@ type sinkUse struct {
 	Instr    ssa.Instruction
 	Stdout   bool
 	FileData bool // data operand of os.WriteFile / File.Write
+	Bs       bindings // parameter bindings of the wrappers the value travelled through
 }
 
 // bindings map a callee parameter to the caller's argument value (for wrappers we step into).
@@ -217,7 +218,7 @@ func (w *World) classifyCallUse(call ssa.CallInstruction, v ssa.Value, viaVararg
 		return nil
 	case "os.WriteFile":
 		if argIdx == 1 {
-			return []sinkUse{{Callee: name, Verbatim: true, Instr: call, FileData: true}}
+			return []sinkUse{{Callee: name, Verbatim: true, Instr: call, FileData: true, Bs: bs}}
 		}
 	case "(*os.File).Write", "(*os.File).WriteString", "io.WriteString":
 		if argIdx == 1 {
@@ -389,10 +390,46 @@ func c16Format(w *World, r *Report) {
 		r.fail(rule, "result-unmodified: "+instrKind(o), w.instrPos(o), "FormatPacketDsl's result is transformed or used by something other than the two sinks: "+o.String())
 	}
 	okGuard := func(ins ssa.Instruction) bool {
-		if ins.Parent() != run {
-			return true // inside a wrapper: guarded at the wrapper call; checked below through dominance of the call in run
+		if ins.Parent() == run {
+			return guardedByNil(ins.Block(), res1, false)
 		}
-		return guardedByNil(ins.Block(), res1, false)
+		// inside a wrapper: every call in run that can reach the wrapper must be behind the err == nil edge
+		target := ins.Parent()
+		reaches := func(from *ssa.Function) bool {
+			seen := map[*ssa.Function]bool{}
+			stack := []*ssa.Function{from}
+			for len(stack) > 0 {
+				f := stack[len(stack)-1]
+				stack = stack[:len(stack)-1]
+				if f == target {
+					return true
+				}
+				if seen[f] || f.Blocks == nil {
+					continue
+				}
+				seen[f] = true
+				forEachInstr(f, func(_ *ssa.BasicBlock, i ssa.Instruction) {
+					if c, ok := i.(ssa.CallInstruction); ok {
+						if g := c.Common().StaticCallee(); g != nil && w.isSubjectFunc(g) {
+							stack = append(stack, g)
+						}
+					}
+				})
+			}
+			return false
+		}
+		ok, any := true, false
+		forEachInstr(run, func(b *ssa.BasicBlock, i ssa.Instruction) {
+			if c, isC := i.(ssa.CallInstruction); isC {
+				if g := c.Common().StaticCallee(); g != nil && w.isSubjectFunc(g) && reaches(g) {
+					any = true
+					if !guardedByNil(b, res1, false) {
+						ok = false
+					}
+				}
+			}
+		})
+		return ok && any
 	}
 	if len(stdoutSinks) != 1 {
 		r.fail(rule, "stdout-sink-is-result", w.instrPos(call), fmt.Sprintf("expected exactly one stdout sink for the formatter result, found %d", len(stdoutSinks)))
@@ -416,10 +453,21 @@ func c16Format(w *World, r *Report) {
 		c := s.Instr.(ssa.CallInstruction)
 		okPath := false
 		if s.Callee == "os.WriteFile" {
-			// path operand: the flag variable `file`, unmodified
+			// path operand: the variable bound to the --file flag, unmodified (through wrapper parameters)
 			p := stripIdentity(c.Common().Args[0])
+			for i := 0; i < 6; i++ {
+				pp, isP := p.(*ssa.Parameter)
+				if !isP {
+					break
+				}
+				a, bound := s.Bs[pp]
+				if !bound {
+					break
+				}
+				p = stripIdentity(a)
+			}
 			if u, ok := p.(*ssa.UnOp); ok && u.Op == token.MUL {
-				if g, ok := u.X.(*ssa.Global); ok && g.Name() == "file" {
+				if g, ok := u.X.(*ssa.Global); ok && w.flagNamesOf(g)["file"] {
 					okPath = true
 				}
 			}
@@ -601,16 +649,92 @@ func c16Export(w *World, r *Report) {
 		r.fatal("anchor unresolved: cmd.FormatPacketDslExport")
 		return
 	}
-	calls := callsTo(fn, parserPath+".FormatPacketDsl")
-	if len(calls) != 1 {
-		r.fail(rule, "calls-library-once", w.pos(fn.Pos()), fmt.Sprintf("expected one call to FormatPacketDsl, found %d", len(calls)))
+	// the exported function may delegate to cmd helpers: its returned C string is followed into them (parameters bound to arguments)
+	isCgo := func(f *ssa.Function, suffix string) bool { return f != nil && strings.HasSuffix(f.Name(), suffix) }
+	type leaf struct {
+		v   ssa.Value
+		blk *ssa.BasicBlock
+		fn  *ssa.Function
+		bs  bindings
+		ins ssa.Instruction
+	}
+	var leaves []leaf
+	wrappedAll := true
+	var collect func(f *ssa.Function, bs bindings, top bool, depth int)
+	collect = func(f *ssa.Function, bs bindings, top bool, depth int) {
+		if depth > 4 {
+			return
+		}
+		forEachInstr(f, func(blk *ssa.BasicBlock, ins ssa.Instruction) {
+			ret, ok := ins.(*ssa.Return)
+			if !ok || len(ret.Results) != 1 {
+				return
+			}
+			v := ret.Results[0]
+			if top {
+				cs, ok := v.(*ssa.Call)
+				if !ok || !isCgo(cs.Call.StaticCallee(), "_Cfunc_CString") {
+					wrappedAll = false
+					r.fail(rule, "every return is C.CString(...)", w.instrPos(ins), "returned value is not a C.CString call")
+					return
+				}
+				v = cs.Call.Args[0]
+			}
+			v = stripIdentity(v)
+			if c, ok := v.(*ssa.Call); ok {
+				if g := c.Call.StaticCallee(); g != nil && g.Pkg == w.Cmd && g.Blocks != nil && !strings.Contains(g.Name(), "_Cfunc_") && g != f {
+					nb := bindings{}
+					for k, val := range bs {
+						nb[k] = val
+					}
+					for i, p := range g.Params {
+						if i < len(c.Call.Args) {
+							nb[p] = c.Call.Args[i]
+						}
+					}
+					collect(g, nb, false, depth+1)
+					return
+				}
+			}
+			leaves = append(leaves, leaf{v, blk, f, bs, ins})
+		})
+	}
+	collect(fn, bindings{}, true, 0)
+	// the single library call, in the exported function or one of the helpers on the return path
+	var call *ssa.Call
+	var callFn *ssa.Function
+	var callBs bindings
+	nCalls := 0
+	seenFn := map[*ssa.Function]bool{}
+	for _, cand := range append([]leaf{{fn: fn, bs: bindings{}}}, leaves...) {
+		if seenFn[cand.fn] {
+			continue
+		}
+		seenFn[cand.fn] = true
+		for _, c := range callsTo(cand.fn, parserPath+".FormatPacketDsl") {
+			call, callFn, callBs = c.(*ssa.Call), cand.fn, cand.bs
+			nCalls++
+		}
+	}
+	if nCalls != 1 {
+		r.fail(rule, "calls-library-once", w.pos(fn.Pos()), fmt.Sprintf("expected one call to FormatPacketDsl on the way to the returned string, found %d", nCalls))
 		return
 	}
-	call := calls[0].(*ssa.Call)
 	// input identity
 	in := stripIdentity(call.Call.Args[0])
+	for i := 0; i < 6; i++ {
+		p, isP := in.(*ssa.Parameter)
+		if !isP {
+			break
+		}
+		a, bound := callBs[p]
+		if !bound {
+			break
+		}
+		in = stripIdentity(a)
+	}
 	okIn := false
-	if c, ok := in.(*ssa.Call); ok && c.Call.StaticCallee() != nil && strings.HasSuffix(c.Call.StaticCallee().Name(), "_Cfunc_GoString") && len(fn.Params) > 0 && c.Call.Args[0] == ssa.Value(fn.Params[0]) {
+	if c, ok := in.(*ssa.Call); ok && isCgo(c.Call.StaticCallee(), "_Cfunc_GoString") && len(fn.Params) > 0 && c.Call.Args[0] == ssa.Value(fn.Params[0]) {
 		okIn = true
 	}
 	if okIn {
@@ -625,26 +749,17 @@ func c16Export(w *World, r *Report) {
 		}
 	}
 	nRet := 0
-	forEachInstr(fn, func(b *ssa.BasicBlock, ins ssa.Instruction) {
-		ret, ok := ins.(*ssa.Return)
-		if !ok || len(ret.Results) != 1 {
-			return
-		}
+	for _, lf := range leaves {
 		nRet++
-		cs, ok := ret.Results[0].(*ssa.Call)
-		if !ok || cs.Call.StaticCallee() == nil || !strings.HasSuffix(cs.Call.StaticCallee().Name(), "_Cfunc_CString") {
-			r.fail(rule, fmt.Sprintf("return#%d is C.CString(...)", nRet), w.instrPos(ins), "returned value is not a C.CString call")
-			return
-		}
-		arg := cs.Call.Args[0]
-		onErr := errV != nil && guardedByNil(b, errV, true)
-		onOK := errV != nil && guardedByNil(b, errV, false)
+		arg := lf.v
+		onErr := lf.fn == callFn && errV != nil && guardedByNil(lf.blk, errV, true)
+		onOK := lf.fn == callFn && errV != nil && guardedByNil(lf.blk, errV, false)
 		switch {
 		case onOK:
 			if isExtractOf(arg, call, 0) {
-				r.pass(rule, "success returns the library result", w.instrPos(ins), "C.CString(result) on err == nil")
+				r.pass(rule, "success returns the library result", w.instrPos(lf.ins), "C.CString(result) on err == nil")
 			} else {
-				r.fail(rule, "success returns the library result", w.instrPos(ins), "on the err == nil edge the C string is not FormatPacketDsl's result unmodified")
+				r.fail(rule, "success returns the library result", w.instrPos(lf.ins), "on the err == nil edge the C string is not FormatPacketDsl's result unmodified")
 			}
 		case onErr:
 			okMsg := false
@@ -656,14 +771,15 @@ func c16Export(w *World, r *Report) {
 				}
 			}
 			if okMsg {
-				r.pass(rule, "error returns Error:+message", w.instrPos(ins), "")
+				r.pass(rule, "error returns Error:+message", w.instrPos(lf.ins), "")
 			} else {
-				r.fail(rule, "error returns Error:+message", w.instrPos(ins), "on the error edge the C string is not \"Error:\" + err.Error()")
+				r.fail(rule, "error returns Error:+message", w.instrPos(lf.ins), "on the error edge the C string is not \"Error:\" + err.Error()")
 			}
 		default:
-			r.fail(rule, fmt.Sprintf("return#%d guarded by the error test", nRet), w.instrPos(ins), "return not dominated by either edge of the error test")
+			r.fail(rule, fmt.Sprintf("return#%d guarded by the error test", nRet), w.instrPos(lf.ins), "return not dominated by either edge of the error test")
 		}
-	})
+	}
+	_ = wrappedAll
 	// header <-> //export agreement
 	exports := map[string]bool{}
 	if p := w.ByPath[modPath+"/cmd"]; p != nil {
@@ -1150,49 +1266,130 @@ func c16Writer(w *World, r *Report, fn *ssa.Function) {
 func c16Execute(w *World, r *Report) {
 	const rule = "C16/arg-rewrite"
 	exec := w.Cmd.Func("Execute")
-	isSub := w.Cmd.Func("isSubcommand")
-	if exec == nil || isSub == nil {
-		r.fatal("anchor unresolved: cmd.Execute / cmd.isSubcommand")
+	if exec == nil {
+		r.fatal("anchor unresolved: cmd.Execute")
 		return
 	}
-	// stores to os.Args that insert "compile"
+	// Execute and the cmd helpers it calls
+	set := map[*ssa.Function]bool{exec: true}
+	sites := map[*ssa.Function][]ssa.CallInstruction{}
+	work := []*ssa.Function{exec}
+	for len(work) > 0 {
+		f := work[len(work)-1]
+		work = work[:len(work)-1]
+		forEachInstr(f, func(_ *ssa.BasicBlock, ins ssa.Instruction) {
+			if c, ok := ins.(ssa.CallInstruction); ok {
+				if g := c.Common().StaticCallee(); g != nil && g.Pkg == w.Cmd && g.Blocks != nil {
+					sites[g] = append(sites[g], c)
+					if !set[g] {
+						set[g] = true
+						work = append(work, g)
+					}
+				}
+			}
+		})
+	}
+	// argv: os.Args itself, or a parameter that every call site binds to it
+	var isArgv func(v ssa.Value, depth int) bool
+	isArgv = func(v ssa.Value, depth int) bool {
+		v = stripIdentity(v)
+		if isLoadOfOsArgs(v) {
+			return true
+		}
+		p, ok := v.(*ssa.Parameter)
+		if !ok || depth > 3 || len(sites[p.Parent()]) == 0 {
+			return false
+		}
+		for i, q := range p.Parent().Params {
+			if q != p {
+				continue
+			}
+			for _, cs := range sites[p.Parent()] {
+				if i >= len(cs.Common().Args) || !isArgv(cs.Common().Args[i], depth+1) {
+					return false
+				}
+			}
+			return true
+		}
+		return false
+	}
+	// subcommand predicates: cmd functions that compare their argument with the names of the registered commands
+	isSubPred := func(f *ssa.Function) (bool, string) {
+		if f == nil || len(f.Params) == 0 {
+			return false, ""
+		}
+		usesCommands := len(callsTo(f, "(*github.com/spf13/cobra.Command).Commands")) > 0
+		usesName := len(callsTo(f, "(*github.com/spf13/cobra.Command).Name")) > 0
+		literalCmp, trueOnMatch := false, false
+		forEachInstr(f, func(b *ssa.BasicBlock, ins ssa.Instruction) {
+			bo, ok := ins.(*ssa.BinOp)
+			if !ok || (bo.Op != token.EQL && bo.Op != token.NEQ) {
+				return
+			}
+			if _, ok := constString(bo.X); ok {
+				literalCmp = true
+			}
+			if _, ok := constString(bo.Y); ok {
+				literalCmp = true
+			}
+			if bo.X != ssa.Value(f.Params[0]) && bo.Y != ssa.Value(f.Params[0]) {
+				return
+			}
+			for _, ref := range *bo.Referrers() {
+				iff, ok := ref.(*ssa.If)
+				if !ok {
+					continue
+				}
+				eq := 0
+				if bo.Op == token.NEQ {
+					eq = 1
+				}
+				for _, i2 := range iff.Block().Succs[eq].Instrs {
+					if ret, ok := i2.(*ssa.Return); ok && len(ret.Results) == 1 {
+						if k, ok := ret.Results[0].(*ssa.Const); ok && k.Value != nil && k.Value.Kind() == constant.Bool && constant.BoolVal(k.Value) {
+							trueOnMatch = true
+						}
+					}
+				}
+			}
+		})
+		return usesCommands && usesName && !literalCmp && trueOnMatch,
+			fmt.Sprintf("Commands()=%v Name()=%v literal-compare=%v returns-true-on-match=%v", usesCommands, usesName, literalCmp, trueOnMatch)
+	}
 	found := false
-	forEachInstr(exec, func(b *ssa.BasicBlock, ins ssa.Instruction) {
-		st, ok := ins.(*ssa.Store)
-		if !ok {
-			return
-		}
-		g, ok := st.Addr.(*ssa.Global)
-		if !ok || g.Name() != "Args" || g.Pkg.Pkg.Path() != "os" {
-			return
-		}
-		app, ok := st.Val.(*ssa.Call)
-		if !ok {
-			return
-		}
-		bi, ok := app.Call.Value.(*ssa.Builtin)
-		if !ok || bi.Name() != "append" {
-			return
-		}
-		// does the head literal contain "compile"?
-		head := app.Call.Args[0]
-		hasCompile := false
-		headFirstIsArg0 := false
-		if sl, ok := head.(*ssa.Slice); ok {
-			if al, ok := sl.X.(*ssa.Alloc); ok {
-				for _, ref := range *al.Referrers() {
-					if ia, ok := ref.(*ssa.IndexAddr); ok {
+	for _, fn := range sortedFuncs(set) {
+		fn := fn
+		forEachInstr(fn, func(b *ssa.BasicBlock, ins ssa.Instruction) {
+			app, ok := ins.(*ssa.Call)
+			if !ok {
+				return
+			}
+			bi, ok := app.Call.Value.(*ssa.Builtin)
+			if !ok || bi.Name() != "append" || len(app.Call.Args) < 2 {
+				return
+			}
+			// does the head literal contain "compile"?
+			hasCompile, headFirstIsArg0 := false, false
+			if sl, ok := app.Call.Args[0].(*ssa.Slice); ok {
+				if al, ok := sl.X.(*ssa.Alloc); ok {
+					for _, ref := range *al.Referrers() {
+						ia, ok := ref.(*ssa.IndexAddr)
+						if !ok {
+							continue
+						}
 						for _, r2 := range *ia.Referrers() {
-							if s2, ok := r2.(*ssa.Store); ok {
-								if cs, ok := constString(s2.Val); ok && cs == "compile" {
-									hasCompile = true
-								}
-								if idx, ok := ia.Index.(*ssa.Const); ok && idx.Int64() == 0 {
-									if ld, ok := s2.Val.(*ssa.UnOp); ok {
-										if ia2, ok := ld.X.(*ssa.IndexAddr); ok {
-											if i2, ok := ia2.Index.(*ssa.Const); ok && i2.Int64() == 0 && isLoadOfOsArgs(ia2.X) {
-												headFirstIsArg0 = true
-											}
+							s2, ok := r2.(*ssa.Store)
+							if !ok {
+								continue
+							}
+							if cs, ok := constString(s2.Val); ok && cs == "compile" {
+								hasCompile = true
+							}
+							if idx, ok := ia.Index.(*ssa.Const); ok && idx.Int64() == 0 {
+								if ld, ok := s2.Val.(*ssa.UnOp); ok {
+									if ia2, ok := ld.X.(*ssa.IndexAddr); ok {
+										if i2, ok := ia2.Index.(*ssa.Const); ok && i2.Int64() == 0 && isArgv(ia2.X, 0) {
+											headFirstIsArg0 = true
 										}
 									}
 								}
@@ -1201,104 +1398,105 @@ func c16Execute(w *World, r *Report) {
 					}
 				}
 			}
-		}
-		if !hasCompile {
-			return
-		}
-		found = true
-		// tail = os.Args[1:]
-		tailOK := false
-		if sl, ok := app.Call.Args[1].(*ssa.Slice); ok && isLoadOfOsArgs(sl.X) && sl.High == nil {
-			if lo, ok := sl.Low.(*ssa.Const); ok && lo.Int64() == 1 {
-				tailOK = true
+			if !hasCompile {
+				return
 			}
-		}
-		if tailOK && headFirstIsArg0 {
-			r.pass(rule, "remaining arguments pass through unchanged", w.instrPos(ins), "os.Args = [os.Args[0], \"compile\"] + os.Args[1:]")
-		} else {
-			r.fail(rule, "remaining arguments pass through unchanged", w.instrPos(ins), "rewritten argument vector is not [os.Args[0], \"compile\"] followed by os.Args[1:]")
-		}
-		// guarded by !isSubcommand(os.Args[1])
-		guarded := false
-		for _, bb := range exec.Blocks {
-			cond := branchCond(bb)
-			if cond == nil {
-				continue
-			}
-			neg := false
-			c := cond
-			for {
-				if u, ok := c.(*ssa.UnOp); ok && u.Op == token.NOT {
-					neg = !neg
-					c = u.X
-					continue
-				}
-				break
-			}
-			call, ok := c.(*ssa.Call)
-			if !ok || call.Call.StaticCallee() != isSub {
-				continue
-			}
-			// argument must be os.Args[1]
-			argOK := false
-			if ld, ok := call.Call.Args[0].(*ssa.UnOp); ok {
-				if ia, ok := ld.X.(*ssa.IndexAddr); ok && isLoadOfOsArgs(ia.X) {
-					if k, ok := ia.Index.(*ssa.Const); ok && k.Int64() == 1 {
-						argOK = true
-					}
+			found = true
+			// tail = argv[1:], and the result becomes os.Args
+			tailOK := false
+			if sl, ok := app.Call.Args[1].(*ssa.Slice); ok && isArgv(sl.X, 0) && sl.High == nil {
+				if lo, ok := sl.Low.(*ssa.Const); ok && lo.Int64() == 1 {
+					tailOK = true
 				}
 			}
-			succ := 1 // false edge of isSubcommand(...)
-			if neg {
-				succ = 0
-			}
-			if argOK && edgeDominates(bb, succ, b) {
-				guarded = true
-			}
-		}
-		if guarded {
-			r.pass(rule, "compile inserted only when arg1 is not a subcommand", w.instrPos(ins), "")
-		} else {
-			r.fail(rule, "compile inserted only when arg1 is not a subcommand", w.instrPos(ins), "the store that inserts \"compile\" is not dominated by the not-a-subcommand edge of isSubcommand(os.Args[1])")
-		}
-	})
-	if !found {
-		r.fail(rule, "compile inserted only when arg1 is not a subcommand", w.pos(exec.Pos()), "no rewrite of os.Args inserting \"compile\" found in Execute")
-	}
-	// isSubcommand consults the registered commands, not a literal list
-	usesCommands := len(callsTo(isSub, "(*github.com/spf13/cobra.Command).Commands")) > 0
-	usesName := len(callsTo(isSub, "(*github.com/spf13/cobra.Command).Name")) > 0
-	literalCmp := false
-	returnsTrueOnMatch := false
-	forEachInstr(isSub, func(b *ssa.BasicBlock, ins ssa.Instruction) {
-		if bo, ok := ins.(*ssa.BinOp); ok && (bo.Op == token.EQL || bo.Op == token.NEQ) {
-			if _, ok := constString(bo.X); ok {
-				literalCmp = true
-			}
-			if _, ok := constString(bo.Y); ok {
-				literalCmp = true
-			}
-			// name == arg -> true edge returns true
-			if bo.Op == token.EQL && len(isSub.Params) > 0 && (bo.X == ssa.Value(isSub.Params[0]) || bo.Y == ssa.Value(isSub.Params[0])) {
-				for _, ref := range *bo.Referrers() {
-					if iff, ok := ref.(*ssa.If); ok {
-						tb := iff.Block().Succs[0]
-						for _, i2 := range tb.Instrs {
-							if ret, ok := i2.(*ssa.Return); ok && len(ret.Results) == 1 {
-								if k, ok := ret.Results[0].(*ssa.Const); ok && k.Value != nil && constant.BoolVal(k.Value) {
-									returnsTrueOnMatch = true
-								}
+			var storedToArgs func(v ssa.Value, f *ssa.Function, depth int) bool
+			storedToArgs = func(v ssa.Value, f *ssa.Function, depth int) bool {
+				if depth > 3 || v.Referrers() == nil {
+					return false
+				}
+				for _, ref := range *v.Referrers() {
+					switch x := ref.(type) {
+					case *ssa.Store:
+						if g, ok := x.Addr.(*ssa.Global); ok && g.Name() == "Args" && g.Pkg != nil && g.Pkg.Pkg.Path() == "os" {
+							return true
+						}
+					case *ssa.Phi:
+						if storedToArgs(x, f, depth+1) {
+							return true
+						}
+					case *ssa.Return:
+						all := len(sites[f]) > 0
+						for _, cs := range sites[f] {
+							cv, ok := cs.(ssa.Value)
+							if !ok || !storedToArgs(cv, cs.Parent(), depth+1) {
+								all = false
 							}
+						}
+						if all {
+							return true
 						}
 					}
 				}
+				return false
 			}
-		}
-	})
-	if usesCommands && usesName && !literalCmp && returnsTrueOnMatch {
-		r.pass(rule, "isSubcommand compares with registered command names", w.pos(isSub.Pos()), "")
-	} else {
-		r.fail(rule, "isSubcommand compares with registered command names", w.pos(isSub.Pos()), fmt.Sprintf("Commands()=%v Name()=%v literal-compare=%v returns-true-on-match=%v", usesCommands, usesName, literalCmp, returnsTrueOnMatch))
+			if tailOK && headFirstIsArg0 && storedToArgs(app, fn, 0) {
+				r.pass(rule, "remaining arguments pass through unchanged", w.instrPos(ins), "os.Args = [os.Args[0], \"compile\"] + os.Args[1:]")
+			} else {
+				r.fail(rule, "remaining arguments pass through unchanged", w.instrPos(ins), "rewritten argument vector is not [os.Args[0], \"compile\"] followed by os.Args[1:], stored back into os.Args")
+			}
+			// guarded by the not-a-subcommand edge of a subcommand predicate applied to argv[1]
+			guarded := false
+			predWhy := ""
+			for _, bb := range fn.Blocks {
+				cond := branchCond(bb)
+				if cond == nil {
+					continue
+				}
+				neg := false
+				c := cond
+				for {
+					if u, ok := c.(*ssa.UnOp); ok && u.Op == token.NOT {
+						neg = !neg
+						c = u.X
+						continue
+					}
+					break
+				}
+				call, ok := c.(*ssa.Call)
+				if !ok || call.Call.StaticCallee() == nil || !set[call.Call.StaticCallee()] || len(call.Call.Args) == 0 {
+					continue
+				}
+				okPred, why := isSubPred(call.Call.StaticCallee())
+				if !okPred {
+					predWhy = why
+					continue
+				}
+				argOK := false
+				if ld, ok := call.Call.Args[0].(*ssa.UnOp); ok {
+					if ia, ok := ld.X.(*ssa.IndexAddr); ok && isArgv(ia.X, 0) {
+						if k, ok := ia.Index.(*ssa.Const); ok && k.Int64() == 1 {
+							argOK = true
+						}
+					}
+				}
+				succ := 1 // false edge of the predicate
+				if neg {
+					succ = 0
+				}
+				if argOK && edgeDominates(bb, succ, b) {
+					guarded = true
+				}
+			}
+			if guarded {
+				r.pass(rule, "compile inserted only when arg1 is not a subcommand", w.instrPos(ins), "")
+				r.pass(rule, "the subcommand test compares with registered command names", w.instrPos(ins), "")
+			} else {
+				r.fail(rule, "compile inserted only when arg1 is not a subcommand", w.instrPos(ins), "the rewrite that inserts \"compile\" is not dominated by the not-a-subcommand edge of a test of argv[1] against the registered command names "+predWhy)
+			}
+		})
+	}
+	if !found {
+		r.fail(rule, "compile inserted only when arg1 is not a subcommand", w.pos(exec.Pos()), "no rewrite of os.Args inserting \"compile\" found under Execute")
 	}
 }
 
@@ -1333,4 +1531,40 @@ func (w *World) addressTaken(fn *ssa.Function) bool {
 		}
 	}
 	return w.addrTaken[fn]
+}
+
+
+// flagNamesOf: the command-line flag names whose value is stored in global g (pflag StringVar/StringVarP/BoolVar... registrations in cmd init).
+func (w *World) flagNamesOf(g *ssa.Global) map[string]bool {
+	if w.flagBind == nil {
+		w.flagBind = map[*ssa.Global]map[string]bool{}
+		for _, fn := range w.srcFuncs {
+			if fn.Pkg != w.Cmd {
+				continue
+			}
+			forEachInstr(fn, func(_ *ssa.BasicBlock, ins ssa.Instruction) {
+				c, ok := ins.(ssa.CallInstruction)
+				if !ok || c.Common().StaticCallee() == nil {
+					return
+				}
+				f := c.Common().StaticCallee()
+				if f.Pkg == nil || f.Pkg.Pkg.Path() != "github.com/spf13/pflag" || !strings.Contains(f.Name(), "Var") {
+					return
+				}
+				args := c.Common().Args
+				if len(args) < 3 {
+					return
+				}
+				gv, ok := args[1].(*ssa.Global)
+				name, ok2 := constString(args[2])
+				if ok && ok2 {
+					if w.flagBind[gv] == nil {
+						w.flagBind[gv] = map[string]bool{}
+					}
+					w.flagBind[gv][name] = true
+				}
+			})
+		}
+	}
+	return w.flagBind[g]
 }
